@@ -5,6 +5,7 @@ pub mod src;
 pub mod refmodel {
     pub mod dbus;
     pub mod gv;
+    pub mod msg;
     pub mod names;
     pub mod sig;
     pub mod val;
